@@ -38,19 +38,22 @@ ShapeSent(kind, sym, neg) ==
   LET core == CASE kind = "op"    -> IF ArityOf(sym) = 1 THEN <<"O", sym, <<cA>>>> ELSE <<"O", sym, <<cA, cB>>>>
                 [] kind = "modal" -> <<"O", sym, <<cA>>>>
                 [] kind = "quant" -> <<"Q", sym, cx, Fof(cx)>>
+                \* the quantified sentence itself is the only place where its constant occurs
+                [] kind = "quantc" -> <<"Q", sym, cx, <<"O", "Conjunction", <<Fof(cx), Gof(Kc(2))>>>>>>
   IN IF neg = 1 THEN NegS(core) ELSE core
 
 InertMark(L) == IF Logic(L).style = "plain" THEN "" ELSE "+"
 Inert(L, kind, k) ==
   CASE kind = "modal" -> [j \in 1..k |-> ANode(0, j)]
-    [] kind = "quant" -> [j \in 1..k |-> SNode(Gof(Kc(j - 1)), InertMark(L), W0(L))]
+    [] kind \in {"quant", "quantc"} -> [j \in 1..k |-> SNode(Gof(Kc(j - 1)), InertMark(L), W0(L))]
     [] OTHER -> <<>>
 
 Shapes(L) ==
   ({<<"op", sym, neg, 0>> : sym \in TruthFunctional, neg \in {0, 1}} \ {<<"op", "Negation", 0, 0>>})
   \cup (IF Logic(L).modal THEN {<<"modal", sym, neg, k>> : sym \in ModalOps, neg \in {0, 1}, k \in 0..2} ELSE {})
   \cup (IF Logic(L).quantified
-        THEN {<<"quant", sym, neg, k>> : sym \in {"Existential", "Universal"}, neg \in {0, 1}, k \in 0..2} ELSE {})
+        THEN {<<"quant", sym, neg, k>> : sym \in {"Existential", "Universal"}, neg \in {0, 1}, k \in 0..2}
+             \cup {<<"quantc", sym, neg, k>> : sym \in {"Existential", "Universal"}, neg \in {0, 1}, k \in 0..1} ELSE {})
 
 GenCases ==
   UNION {{[logic |-> L, kind |-> sh[1], sym |-> sh[2], neg |-> sh[3], d |-> d, k |-> sh[4],
@@ -96,7 +99,7 @@ Rels(cls, W, Rb, wn) ==
 Cells(c, W, C) ==
   CASE c.kind = "op"    -> {<<IF c.b0[1].w < 0 THEN 0 ELSE c.b0[1].w, a>> : a \in {cA, cB}}
     [] c.kind = "modal" -> {<<w, cA>> : w \in W}
-    [] c.kind = "quant" -> {<<IF c.b0[1].w < 0 THEN 0 ELSE c.b0[1].w, Fof(p)>> : p \in C}
+    [] c.kind \in {"quant", "quantc"} -> {<<IF c.b0[1].w < 0 THEN 0 ELSE c.b0[1].w, Fof(p)>> : p \in C}
 
 \* inert cells are fixed to T
 Fixed(c, W) == SetToSeq({<<w, Gof(Kc(j)), "T">> : w \in W, j \in 0..2})
@@ -161,7 +164,7 @@ Sound(c) ==
       Cb == ConstsOfB(c.b0)
       Rb == AccessOfB(c.b0)
       Ws == IF c.kind = "modal" /\ Cardinality(Wb) <= 2 THEN {Wb, Wb \cup {SpareW}} ELSE {Wb}
-      Cs == IF c.kind = "quant" THEN {Cb, Cb \cup {SpareC}} ELSE {Cb}
+      Cs == IF c.kind \in {"quant", "quantc"} THEN {Cb, Cb \cup {SpareC}} ELSE {Cb}
   IN \A W \in Ws : \A C \in Cs :
        \A M \in ModelsOver(c, L, W, C, IF c.kind = "modal" THEN Rels(L.frame, W, Rb, NodeW(c))
                                         ELSE {FrameClosure(L.frame, W, Rb) \cup Id(W)}) :
